@@ -792,9 +792,9 @@ orc_compiler_check_sizes (OrcCompiler *compiler)
         compiler->result = ORC_COMPILE_RESULT_UNKNOWN_PARSE;
         return;
       }
-      if (multiplier * opcode->src_size[j] > ORC_MAX_VAR_SIZE &&
-          compiler->vars[insn->src_args[j]].vartype != ORC_VAR_TYPE_PARAM &&
-          compiler->vars[insn->src_args[j]].vartype != ORC_VAR_TYPE_CONST) {
+      /* also for a parameter or constant: it is loaded into a temporary of
+       * this size (x4 convlw d, p1 would need 16 bytes) */
+      if (multiplier * opcode->src_size[j] > ORC_MAX_VAR_SIZE) {
         ORC_COMPILER_ERROR (compiler, "opcode %s src[%d] needs a %d-byte variable, the limit is %d",
             opcode->name, j, multiplier * opcode->src_size[j], ORC_MAX_VAR_SIZE);
         compiler->result = ORC_COMPILE_RESULT_UNKNOWN_PARSE;
